@@ -193,7 +193,7 @@ theorem db_key_confined (cfg : Cfg) (s : State) (r : Request)
 /-- the hypotheses of `db_key_confined` are met: the key holder of `a` asks for `info` -/
 example :
     let cfg : Cfg := ⟨some "adm", "prim", 8⟩
-    let s : State := ⟨[("a", "ka"), ("b", "kb")], ["prim", "a", "b"], ["a", "b"], ["prim", "a", "b"], false⟩
+    let s : State := ⟨[("a", "ka"), ("b", "kb")], ["prim", "a", "b"], ["a", "b"], ["prim", "a", "b"], false, ["a", "b"]⟩
     let r : Request := ⟨.post, .db "a", some (bearerPrefixBytes ++ [107, 97]), some .json, none, .rpc "info" ⟨none, none, none⟩, "g"⟩
     (handle cfg s r).2 = ⟨.json, .root (.info none ["a"]), some .database⟩ := by decide
 
@@ -340,8 +340,8 @@ theorem rejected_of_wrong_token (cfg : Cfg) (s : State) (r : Request) (n a : Str
 
 example :
     let cfg : Cfg := ⟨some "adm", "prim", 8⟩
-    let s₁ : State := ⟨[("a", "ka"), ("b", "kb")], ["prim", "a", "b"], ["a", "b"], ["prim", "a", "b"], false⟩
-    let s₂ : State := ⟨[], ["prim"], [], ["prim"], true⟩
+    let s₁ : State := ⟨[("a", "ka"), ("b", "kb")], ["prim", "a", "b"], ["a", "b"], ["prim", "a", "b"], false, ["a", "b"]⟩
+    let s₂ : State := ⟨[], ["prim"], [], ["prim"], true, []⟩
     let tok := some (bearerPrefixBytes ++ [107, 97])   -- "Bearer ka"
     -- key of `a` on `b` (exists, bound to another key)  vs  no token on a database that does not exist
     (handle cfg s₁ ⟨.post, .db "b", tok, some .cbor, none, .rpc "doc.get" ⟨none, none, none⟩, "g"⟩).2 =
@@ -611,7 +611,7 @@ example :
     run exCfg (init exCfg) [exAdmin "db.create" "a" (some "ka"), exAdmin "db.create" "b" (some "kb"),
         exAdmin "db.set_api_key" "a" none, exAdmin "db.close" "b" none, .restart,
         exAdmin "db.set_api_key" "prim" (some "kp")] =
-      ⟨[("a", "gen"), ("b", "kb")], ["prim", "a"], ["a"], ["b", "a", "prim"], false⟩ := by decide +kernel
+      ⟨[("a", "gen"), ("b", "kb")], ["prim", "a"], ["a"], ["b", "a", "prim"], false, ["a"]⟩ := by decide +kernel
 
 /-! ## Encodings -/
 
